@@ -97,7 +97,9 @@ func (g *Gen) LoadContracts(specsDir string) error {
 func (g *Gen) addFile(cf *ContractFile) {
 	g.files = append(g.files, cf)
 	for _, c := range cf.Contracts {
-		g.contracts[c.Pkg+"."+c.Name] = c
+		if c.Variant == "" {
+			g.contracts[c.Pkg+"."+c.Name] = c
+		}
 	}
 	for _, s := range cf.Specs {
 		g.specs[s.Pkg+"."+s.Name] = s
